@@ -101,4 +101,46 @@ class Plugin(HistPlugin):
                              'failing_clause': bad})
                 if len(viol) >= 3:
                     break
-        return viol, {'multi_vs_single_probes': done}
+        # a replacement applied to a document matched through an operator condition on _id: the
+        # document keeps its _id and takes the replacement's fields
+        rp = 0
+        for i in range(40 if tier == 'quick' else 400):
+            docs = [{'_id': k, 'a': rng.choice([1, 2]), 'b': [k]} for k in range(1, rng.choice([2, 3, 4]))]
+            k = rng.choice(docs)['_id']
+            cond = rng.choice([{'$in': [k]}, {'$eq': k}, {'$gte': k, '$lte': k}, {'$in': [k, 99]}])
+            f = {'_id': cond}
+            repl = rng.choice([{'a': 7}, {'c': {'d': 1}}, {}, {'_id': k, 'a': 9}])
+            # (find_one_and_replace rejects an empty replacement before looking at anything)
+            via = rng.choice(['replace_one', 'find_one_and_replace']) if repl else 'replace_one'
+            c = mongomock.MongoClient().db.c
+            c.insert_many(copy.deepcopy(docs))
+            try:
+                getattr(c, via)(copy.deepcopy(f), copy.deepcopy(repl))
+                got = c.find_one({'_id': k})
+                err = None
+            except Exception as e:  # noqa
+                got, err = None, e
+            rp += 1
+            want = dict({'_id': k}, **{x: y for x, y in repl.items() if x != '_id'})
+            bad, fid = None, None
+            if err is not None:
+                bad = 'the replacement raised %s: %s' % (type(err).__name__, str(err)[:120])
+                if (type(err).__name__ == 'WriteError' and 'immutable' in str(err)) or \
+                        (type(err).__name__ == 'OperationFailure' and 'cannot be changed' in str(err)
+                         and str(err).endswith('to %s' % (cond,))):
+                    fid = 'F-REPLACE-OPERATOR-ID-RAISES'
+            elif got != want:
+                bad = 'the replaced document is %r, expected %r' % (got, want)
+            others_ok = err is not None or all(c.find_one({'_id': d['_id']}) == d for d in docs if d['_id'] != k)
+            if bad is None and not others_ok:
+                bad = 'a document other than the matched one changed'
+            if bad:
+                v = {'case': {'docs': common.to_jsonable(docs), 'filter': common.to_jsonable(f),
+                              'replacement': common.to_jsonable(repl), 'via': via},
+                     'impl': {'got': common.to_jsonable(got)}, 'failing_clause': bad}
+                if fid:
+                    v['finding_id'] = fid
+                viol.append(v)
+                if len([x for x in viol if 'finding_id' not in x]) >= 3:
+                    break
+        return viol, {'multi_vs_single_probes': done, 'operator_id_replace_probes': rp}
